@@ -129,6 +129,16 @@ pub fn profile(check: &str) -> Profile {
             dup_rate: (1, 2),
             ..default
         },
+        "C06" => Profile {
+            owner: "C06",
+            own: vec!["C06:"],
+            w: [30, 2, 6, 5, 4, 8, 4, 2, 1, 1, 4, 0, 0, 0, 3, 3, 1, 0, 0, 3],
+            nontrivial_any: vec!["purge", "send_after_restart", "balanced_send"],
+            required: vec![],
+            key_rate: (1, 4),
+            balanced_rate: (1, 4),
+            ..default
+        },
         "C17" => Profile {
             owner: "C17",
             own: vec!["C17:"],
